@@ -28,7 +28,7 @@ RULE = ("Well-typed-by-construction RFC 9535 filter ASTs (existence tests, compa
         "drops others, or the reference recorded a Nothing / mixed-type / bool-vs-number comparison; "
         "distinct by (canonical AST, document). Exhaustive: comparison table over a 33-value universe "
         "(absent, null, booleans, int/float/bool look-alikes, strings, nested arrays/objects) for every "
-        "ordered pair x 6 operators x operand forms {literal, @-query, $-query}.")
+        "ordered pair x 6 operators x operand forms {literal, @-query, $-query, value(query)}.")
 ASSUMPTIONS = [
     "reference semantics transcribed from RFC 9535 2.3.5 and 2.4 (validated on the RFC's filter and comparison-table examples in preflight)",
     "regular expressions stay in the dialect common to Python re and I-Regexp; both sides use Python re for matching",
@@ -190,8 +190,10 @@ def t_table(rows):
                 top["r"] = R
             doc = dict(top)
             doc["c"] = [cand]
-            forms_l = [("@", ["q", "@", [["c", [["n", "l"]]]]]), ("$", ["q", "$", [["c", [["n", "l"]]]]])]
-            forms_r = [("@", ["q", "@", [["c", [["n", "r"]]]]]), ("$", ["q", "$", [["c", [["n", "r"]]]]])]
+            forms_l = [("@", ["q", "@", [["c", [["n", "l"]]]]]), ("$", ["q", "$", [["c", [["n", "l"]]]]]),
+                       ("value", ["call", "value", [["q", "@", [["c", [["n", "l"]]]]]]])]
+            forms_r = [("@", ["q", "@", [["c", [["n", "r"]]]]]), ("$", ["q", "$", [["c", [["n", "r"]]]]]),
+                       ("value", ["call", "value", [["q", "@", [["d", [["n", "r"]]]]]]])]
             if is_prim(L):
                 forms_l.append(("lit", ["lit", L]))
             if is_prim(R):
